@@ -440,6 +440,8 @@ _PATTERN = bytes((i * 3) & 0xff for i in range(256))
 def _element_bytes(el):
     if el[0] == "op":
         return bytes([R.KNOWN_NONPUSH_BYTES[el[1] % len(R.KNOWN_NONPUSH_BYTES)]])
+    if el[0] == "opb":
+        return bytes([el[1]])
     if el[0] == "push":
         return R.minimal_push(bytes.fromhex(el[1]))
     if el[0] == "pushn":
@@ -481,7 +483,7 @@ def o_text(case):
              "next disassembly of the same bytes is %r" % (script.hex()[:80], net.script.disassemble(script)[:200]))
     labels = set()
     for el, b in zip(case["elements"], parts):
-        labels.add("el=op" if el[0] == "op" else "el=push:" + ("OP_0" if b[0] == 0 else "OP_n/1NEGATE" if b[0] >= 0x4f else "direct" if b[0] <= 75
+        labels.add("el=op" if el[0] in ("op", "opb") else "el=push:" + ("OP_0" if b[0] == 0 else "OP_n/1NEGATE" if b[0] >= 0x4f else "direct" if b[0] <= 75
                                                                 else {0x4c: "PUSHDATA1", 0x4d: "PUSHDATA2", 0x4e: "PUSHDATA4"}[b[0]]))
     labels.add("n=%s" % ("0" if not toks else "1-3" if len(toks) <= 3 else "4+"))
     return sorted(labels)
@@ -498,6 +500,38 @@ def s_text():
         st.builds(lambda n, f: ["pushn", n, f], pushlen, st.integers(0, 255)),
     )
     return st.fixed_dictionaries({"net": st.sampled_from(sorted(NETS)), "elements": st.lists(el, max_size=12)})
+
+
+# the fixed bytes and the total length of the standard output scripts; what lies between is one push in the real thing
+_FRAMES = {"p2pkh": ([0x76, 0xa9], 21, [0x88, 0xac]), "p2sh": ([0xa9], 21, [0x87]), "p2wpkh": ([0x00], 21, []), "p2wsh": ([0x00], 33, []),
+           "p2tr": ([0x51], 33, []), "p2pk": ([], 34, [0xac]), "p2pk-u": ([], 66, [0xac]), "nulldata": ([0x6a], 21, []),
+           "msig-1of1": ([0x51], 34, [0x51, 0xae]), "msig-1of2": ([0x51], 68, [0x52, 0xae])}
+
+
+def s_near_templates():
+    """scripts with the frame and the exact length of a standard output script whose interior is some OTHER well-formed
+    instruction sequence of the same size (a shorter push and an opcode, two pushes, opcodes only), and the real thing"""
+    fill_ops = [0x61, 0x75, 0x76, 0x87, 0x88, 0xac, 0x51, 0x00, 0x6a, 0xa9]
+
+    def mk(net, frame, shape, a, f, opi):
+        head, L, tail = _FRAMES[frame]
+        op = ["opb", fill_ops[opi % len(fill_ops)]]
+        a = 2 + a % max(1, L - 6)
+        mid = {"exact": [["pushn", L - 1, f]],
+               "push+op": [["pushn", L - 2, f], op],
+               "op+push": [op, ["pushn", L - 2, f]],
+               "push+push": [["pushn", a, f], ["pushn", L - 2 - a, f + 1]] if L - 2 - a >= 2 else [["pushn", L - 2, f], op],
+               "push+op+op": [["pushn", L - 3, f], op, op],
+               "op+push+op": [op, ["pushn", L - 3, f], op],
+               "ops": [["opb", fill_ops[(opi + j) % len(fill_ops)]] for j in range(L)],
+               "first-byte-kept": [["pushn", L - 1, f]]}[shape]
+        if shape == "first-byte-kept" and L - 1 <= 75:
+            # the interior starts with the byte a push of L-1 bytes starts with, but as the first byte of pushed data
+            mid = [["push", (bytes([L - 1]) + bytes([f or 1]) * (a - 1)).hex()], ["pushn", L - 2 - a, f + 1]] if L - 2 - a >= 2 else mid
+        return {"net": net, "elements": [["opb", b] for b in head] + mid + [["opb", b] for b in tail], "frame": frame, "shape": shape}
+    return st.builds(mk, st.sampled_from(sorted(NETS)), st.sampled_from(sorted(_FRAMES)),
+                     st.sampled_from(["exact", "push+op", "op+push", "push+push", "push+op+op", "op+push+op", "ops", "first-byte-kept"]),
+                     st.integers(0, 60), st.integers(0, 254), st.integers(0, 9))
 
 
 def nt_text(case, labels):
@@ -584,6 +618,12 @@ SUBCHECKS = [
              rule="scripts of 0..12 instructions drawn from the 110 single-byte opcodes of script.h and minimal pushes (lengths "
                   "0..80, 255, 256, 520, 65535, 65536, OP_n specials): compile(disassemble(s)) == s on BTC/LTC/BCH/XTN; "
                   "non-trivial = contains a PUSHDATA or OP_n-form push"),
+    SubCheck("text_near_templates", o_text, strategy=s_near_templates, budget=(2000, 60000),
+             nontrivial=lambda c, l: c.get("shape") != "exact",
+             rule="scripts with the fixed bytes and the exact length of a standard output script (p2pkh, p2sh, p2wpkh, p2wsh, p2tr, p2pk, "
+                  "null data, 1-of-1 / 1-of-2 multisig) whose interior is another well-formed instruction sequence of the same size (shorter "
+                  "push + opcode, two pushes, opcodes only, a push whose data starts with the template's length byte): same oracle as "
+                  "text_roundtrip (one token per instruction, compile(disassemble(s)) == s); non-trivial = not the template itself"),
     SubCheck("opcode_names", o_single_opcode, cases=cases_single_opcode, exhaustive=True, max_shards=4,
              nontrivial=lambda c, l: "known" in l,
              rule="all 256 one-byte scripts disassemble without error; known non-push opcodes recompile to themselves; every "
